@@ -196,7 +196,7 @@ def run_shard(job, idx, prop, sd, workdir, extra_args=None):
                                "--replay-dir", REPLAYS, "--log", logf,
                                "--corpus64", os.path.join(CORPUS, "cf_hard_f64.txt"), "--corpus32", os.path.join(CORPUS, "cf_hard_f32.txt"),
                                "--corpus64s", os.path.join(CORPUS, "cf_short_f64.txt"), "--corpus32s", os.path.join(CORPUS, "cf_short_f32.txt"),
-                               "--corpus-limb", os.path.join(CORPUS, "limb_struct_f64.txt")] + job.args + list(extra_args or [])
+                               "--corpus-limb", os.path.join(CORPUS, "limb_struct_f64_small.txt" if "--limb-max-digits" in job.args else "limb_struct_f64.txt")] + job.args + list(extra_args or [])
     res.cmd = cmd
     env = base_env()
     if job.instr.startswith("miri"):
